@@ -313,7 +313,104 @@ func c07Run(c *fw.Ctx) error {
 		}
 		c.Done(i)
 	}
+	// OPN chunks (asymmetric algorithms): all policies x all pairs of allowed key sizes, both directions
+	idx := n
+	for _, p := range refpeer.Policies {
+		sizes := allowedSizes(p)
+		for _, lb := range sizes {
+			for _, rb := range sizes {
+				for k := 0; k < c.Pick(2, 30); k++ {
+					i := idx
+					idx++
+					if int(i%int64(c.NBatch)) != c.Batch || i < c.Resume {
+						continue
+					}
+					r := c.Rng("c07asym", i)
+					cs := chunkCase{Policy: p.URI, Mode: 2 + r.Intn(2), LocalBits: lb, RemBits: rb, Body: r.Intn(3 * p.AsymPlainBlock(rb/8)),
+						Seq: uint32(1 + r.Intn(1000)), What: "OPN gopcua->gopcua"}
+					if k == 0 {
+						cs.Body = 0
+					}
+					c.Journal(i, cs)
+					c07Asym(c, cs, r)
+					c.Done(i)
+				}
+			}
+		}
+	}
 	return nil
+}
+
+// c07Asym: an OPN message secured by a gopcua instance with the asymmetric algorithm of the sender is opened by a gopcua
+// instance with the algorithm of the receiver (key sizes of the two sides differ in most cases): same body, same ids.
+func c07Asym(c *fw.Ctx, cs chunkCase, r *rand.Rand) {
+	p := refpeer.PolicyByURI(cs.Policy)
+	cli, srv := keys.Get("a", cs.LocalBits), keys.Get("b", cs.RemBits)
+	c.Eval(1)
+	c.Class("asym:"+p.Name, 1)
+	c.Nontrivial(fmt.Sprintf("asym/%s/%d/%d/%d", cs.Policy, cs.LocalBits, cs.RemBits, cs.Body))
+	for _, fromClient := range []bool{true, false} {
+		sndK, rcvK := cli, srv
+		dir := "client->server"
+		if !fromClient {
+			sndK, rcvK = srv, cli
+			dir = "server->client"
+		}
+		svc := opnBody(r, p.NonceLen+cs.Body, fromClient)
+		want := wireBody(svc)
+		typeID := uint16(id.OpenSecureChannelRequest_Encoding_DefaultBinary)
+		if !fromClient {
+			typeID = id.OpenSecureChannelResponse_Encoding_DefaultBinary
+		}
+		inst := func(local, remote *keys.Pair, seq uint32) (*uasc.VerifInstance, error) {
+			algo, err := uapolicy.Asymmetric(cs.Policy, local.Key, &remote.Key.PublicKey)
+			if err != nil {
+				return nil, err
+			}
+			v := uasc.VerifNewInstance(&uasc.Config{SecurityPolicyURI: cs.Policy, SecurityMode: ua.MessageSecurityMode(cs.Mode), Certificate: local.Cert,
+				LocalKey: local.Key, RemoteCertificate: remote.Cert, Thumbprint: refpeer.Thumbprint(remote.Cert)}, algo, 77, 0, seq)
+			v.SetMaximumBodySize(65535)
+			return v, nil
+		}
+		var why string
+		if pn := fw.Catch(func() {
+			snd, err := inst(sndK, rcvK, cs.Seq)
+			if err != nil {
+				why = "algo: " + err.Error()
+				return
+			}
+			rcv, err := inst(rcvK, sndK, 1)
+			if err != nil {
+				why = "algo: " + err.Error()
+				return
+			}
+			raw, err := snd.EncodeAndSecure(snd.NewMessage(svc, typeID, 4242))
+			if err != nil || len(raw) != 1 {
+				why = fmt.Sprintf("encode: %v (%d chunks)", err, len(raw))
+				return
+			}
+			if int(binary.LittleEndian.Uint32(raw[0][4:])) != len(raw[0]) || raw[0][3] != 'F' {
+				why = fmt.Sprintf("header: MessageSize %d, length %d, chunk type %c", binary.LittleEndian.Uint32(raw[0][4:]), len(raw[0]), raw[0][3])
+				return
+			}
+			m, err := rcv.VerifyAndDecrypt(raw[0])
+			if err != nil {
+				why = "rejected: the receiving instance does not accept the chunk: " + err.Error()
+				return
+			}
+			if m.SequenceHeader == nil || m.SequenceHeader.RequestID != 4242 || !bytes.Equal(m.Data, want) {
+				why = fmt.Sprintf("plaintext: the receiver recovers %d body bytes, sent %d", len(m.Data), len(want))
+			}
+		}); pn != nil {
+			cs.Detail = pn.Msg
+			c.Violation("c07-opn-"+pn.Key(), "an OPN round trip panicked: "+pn.Msg, cs)
+			return
+		}
+		if why != "" {
+			cs.Detail = dir + ": " + why
+			c.Violation(fmt.Sprintf("c07:opn-round-trip:%s:%s", classOf(why), p.Name), cs.Detail, cs)
+		}
+	}
 }
 
 // ---- C08 ----
@@ -786,7 +883,7 @@ func init() {
 	fw.Register("C07", fw.Spec{
 		Plan: func(tier string) fw.Plan {
 			p := fw.Plan{Batches: 8, TimeoutS: 600, MinNontrivial: 2000, Level: "exploration",
-				Rule:        "in-process layer: every policy x applicable mode x chunk sizes (dense near 8192, all residues, powers of two, random to 2^16+8192) x body lengths (k*max-1, k*max, k*max+1 for k=1..4, small, random) x first sequence numbers (incl. just below the wrap) through the real newMessage/EncodeChunks/signAndEncrypt and, on a mirrored instance, the real verifyAndDecrypt/mergeChunks/DecodeService; per chunk: size <= negotiated, MessageSize = length, C...F flags, request id, sequence +1; reassembly byte-equal; the end-to-end layer over TCP is part of C06/C12/C20; distinct = distinct (policy, mode, chunk size, body length)",
+				Rule:        "in-process layer: every policy x applicable mode x chunk sizes (dense near 8192, all residues, powers of two, random to 2^16+8192) x body lengths (k*max-1, k*max, k*max+1 for k=1..4, small, random) x first sequence numbers (incl. just below the wrap) through the real newMessage/EncodeChunks/signAndEncrypt and, on a mirrored instance, the real verifyAndDecrypt/mergeChunks/DecodeService; per chunk: size <= negotiated, MessageSize = length, C...F flags, request id, sequence +1; reassembly byte-equal; OPN request and response chunks for every pair of allowed RSA key sizes (unequal pairs included) from a gopcua instance with the sender's asymmetric algorithm to one with the receiver's; the end-to-end layer over TCP is part of C06/C12/C20; distinct = distinct (policy, mode, chunk size, body length)",
 				Assumptions: []string{"EncodeAndSecure in the hook file repeats the sender loop of writeMessageChunks without the socket write"}}
 			if tier == "thorough" {
 				p.Batches, p.TimeoutS, p.MinNontrivial = 16, 2400, 100000
